@@ -131,7 +131,7 @@ def match_finding(prop, r, findings):
     result says all its failing inputs lie inside the finding's region (`covered_by`), or - for
     bounded instances - the canonical instance key is listed / the blamed pattern matches."""
     for f in findings:
-        if f.get("status") != "open" or f.get("property") != prop:
+        if f.get("status") != "open" or not _prop(f, prop):
             continue
         if not _pat(f, r["name"]):
             continue
@@ -172,6 +172,11 @@ def glob_match(name, pat):
     return re.fullmatch(".*".join(re.escape(x) for x in pat.split("*")), name) is not None
 
 
+def _prop(f, prop):
+    p = f.get("property")
+    return prop in p if isinstance(p, list) else p == prop
+
+
 def _pat(f, name):
     pats = f["obligation"] if isinstance(f["obligation"], list) else [f["obligation"]]
     return any(glob_match(name, p) for p in pats)
@@ -179,7 +184,7 @@ def _pat(f, name):
 
 def findings_for(prop, name):
     return [f for f in load_findings()
-            if f.get("status") == "open" and f.get("property") == prop and "region" in f and _pat(f, name)]
+            if f.get("status") == "open" and _prop(f, prop) and "region" in f and _pat(f, name)]
 
 
 # ----------------------------------------------------------------------------------------------
